@@ -320,6 +320,15 @@ class Interp:
                 r = h(self, st, v, fr)
                 if r is not None:
                     return r
+            if v.op == 'cmp':
+                # sign domain: positive atoms against constants (argument-validation guards)
+                from .regions import sign_of, POS, NEG, ZERO, NONNEG, NONPOS
+                sg = sign_of(X.add(v.args[0], X.neg(v.args[1])))
+                table = {POS: {'>': 1, '>=': 1, '<': 0, '<=': 0, '==': 0, '!=': 1}, NEG: {'>': 0, '>=': 0, '<': 1, '<=': 1, '==': 0, '!=': 1},
+                         ZERO: {'>': 0, '>=': 1, '<': 0, '<=': 1, '==': 1, '!=': 0}, NONNEG: {'>=': 1, '<': 0}, NONPOS: {'<=': 1, '>': 0}}
+                r = table.get(sg, {}).get(v.val)
+                if r is not None:
+                    return bool(r)
             raise AnalysisError(f'{fr.mod.where(st)}: branch on a symbolic condition `{ast.unparse(st.test)[:80]}`')
         if isinstance(v, Opaque):
             h = self.hooks.get('branch')
@@ -476,12 +485,19 @@ class Interp:
     def e_Attribute(self, e, fr):
         base = self.eval(e.value, fr)
         a = e.attr
+        if isinstance(base, Opaque):
+            return Opaque(base.name + '.' + a)
         if isinstance(base, Obj):
             if a in base.attrs or base.default is not None and base.cls is None:
                 return base.get(a)
             if base.cls is not None:
                 m = self.find_method(base.cls, a)
                 if m is not None:
+                    decos = [ast.unparse(d) for d in m[1].decorator_list]
+                    if 'property' in decos:
+                        return self.call(m[0], m[1], [], {}, self_obj=base)
+                    if 'staticmethod' in decos:
+                        return FuncRef(m[0], m[1], cls=base.cls, bound=None)
                     return FuncRef(m[0], m[1], cls=base.cls, bound=base)
             return base.get(a)
         if isinstance(base, ModuleRef):
@@ -787,6 +803,8 @@ class Interp:
         if isinstance(f, FuncRef):
             self.trace_calls.append((fr.mod.where(e) if e is not None else '', f.node.name))
             return self.call(f.mod, f.node, args, kwargs, self_obj=f.bound)
+        if isinstance(f, Opaque):
+            return Opaque(f.name + '()')
         if isinstance(f, Builtin):
             return self.builtin(f.name, args, kwargs, e, fr)
         if isinstance(f, tuple) and f and f[0] == 'dictmethod':
